@@ -1,0 +1,14 @@
+//go:build verif
+
+package internals
+
+// VerifFieldHook, when set, is told the path of the struct node being visited and the schema key
+// of the field about to be processed. It observes the (randomised) field visit order; it never steers it.
+var VerifFieldHook func(path string, key string)
+
+// VerifOnField is called as the first statement of the struct field loops.
+func VerifOnField(path *PathBuilder, key string) {
+	if VerifFieldHook != nil {
+		VerifFieldHook(path.String(), key)
+	}
+}
